@@ -110,8 +110,38 @@ def gen(ctx):
     return cases
 
 
+def shipped_flag():
+    import os, re
+    from vpc.core import COQ
+    try:
+        txt = open(os.path.join(COQ, "gen", "Consts.v")).read()
+    except OSError:
+        return None
+    m = re.search(r"Definition rs_encrypt_records_shipped : bool := (true|false)\.", txt)
+    return None if not m else m.group(1) == "true"
+
+
+def search_without_feature(ctx):
+    """The regenerated constant says the shipped build no longer encrypts record files: the pinned theorems
+    reject it.  Find the concrete failing input: build the same harness without the feature and replay the
+    torn-file witnesses (the `restart_safe_unencrypted_refuted` shape) on the real code."""
+    ctx.log("encrypt-records is no longer in the shipped feature set: searching for a failing input on a build without it")
+    plain = ctx.cargo_build("c02plain")
+    if plain is None:
+        return
+    cases = ctx.corpus()
+    outs = ctx.run_harness(plain, cases) or []
+    for c, o in zip(cases, outs):
+        for cls, desc in oracle(c, o) or []:
+            if cls != "built-without-encryption":
+                ctx.impl_violation(cls, "build without encrypt-records (as ant-node now ships): " + desc,
+                                   {"case": c, "impl": o, "built_with": "ant-networking without encrypt-records"})
+
+
 def run(ctx):
     ctx.regen_consts()
+    if shipped_flag() is False:
+        search_without_feature(ctx)
     ctx.prove("props/C02.v", THEOREMS, extra_trusted=[
         "model coq/model/RecordStore.v (crash / reopen = with_config + update_records_from_an_existing_store) tied "
         "to record_store.rs by this run's lock-step correspondence across real crash directories",
